@@ -706,6 +706,7 @@ func specInactive(cm *connectionManager, h *HostInfo, now time.Time) bool {
 //@   assigns nothing
 //@ func (*LockingTimerWheel).Add
 //@   trusted frame abstraction: modifies only the wheel's own lists/items/cache (timeout.go)
+//@   effect rescheduled
 //@   assigns nothing
 
 // Re-handshake policy: a handshake is started exactly when the local
@@ -1444,9 +1445,10 @@ func specTable(ft *FirewallTable, p firewall.Packet, incoming bool, c *cert.Cach
 //@   assigns nothing
 
 //@ func (*HandshakeManager).continueHandshake
-//@   props C09
+//@   props C09 C32
 //@   ghost j int
 //@   ghost completed int = 0
+//@   ghost replayed int = 0
 //@   requires hm != nil && hm.f != nil && hm.f.l != nil && hm.f.lightHouse != nil && hm.f.myVpnAddrsTable != nil && hm.f.myVpnNetworksTable != nil && hm.f.cachedPacketMetrics != nil && hm.f.cachedPacketMetrics.sent != nil && hm.f.metricHandshakes != nil
 //@   requires hh != nil && hh.hostinfo != nil && len(hh.hostinfo.vpnAddrs) >= 1 && hh.hostinfo.remotes != nil
 //@   requires implies(via.IsRelayed, via.relayHI != nil && len(via.relayHI.vpnAddrs) >= 1)
@@ -1454,14 +1456,16 @@ func specTable(ft *FirewallTable, p firewall.Packet, incoming bool, c *cert.Cach
 //@   old intended = hh.hostinfo.vpnAddrs[0]
 //@   old hi = hh.hostinfo
 //@   callrequires (*HandshakeManager).Complete arg1 == hi && arg1.ConnectionState != nil && arg1.ConnectionState.peerCert != nil && len(arg1.vpnAddrs) == len(arg1.ConnectionState.peerCert.Certificate.Networks()) && implies(0 <= j && j < len(arg1.vpnAddrs), arg1.vpnAddrs[j] == arg1.ConnectionState.peerCert.Certificate.Networks()[j].Addr() && !liteContains(hm.f.myVpnAddrsTable, arg1.vpnAddrs[j])) && exists(func(m int) bool { return 0 <= m && m < len(arg1.vpnAddrs) && arg1.vpnAddrs[m] == intended })
-//@   callback callback(t, st, h, p, nb, out) requires h == hi
+//@   callback callback(t, st, h, p, nb, out) requires h == hi && t == cp.messageType && st == cp.messageSubType && same(p, cp.packet) && completed == 1
+//@   callback callback(t, st, h, p, nb, out) updates replayed = replayed + 1
 //@   callback callback(t, st, h, p, nb, out) pure
 //@   ensures[once] completed <= 1
+//@   ensures[replay] implies(completed == 1, replayed == len(hh.packetStore)) && implies(completed == 0, replayed == 0)
 //@   loop 1 invariant[exact]   implies(0 <= j && j < i, vpnAddrs[j] == vpnNetworks[j].Addr() && !liteContains(hm.f.myVpnAddrsTable, vpnAddrs[j]))
 //@   loop 1 invariant[correct] implies(correctHostResponded, exists(func(m int) bool { return 0 <= m && m < i && vpnAddrs[m] == intended }))
-//@   loop 1 invariant[frame]   len(vpnAddrs) == len(vpnNetworks) && implies(len(vpnAddrs) > 0, fresh(&vpnAddrs[0])) && completed == 0 && hostinfo == hi && hostinfo.vpnAddrs[0] == intended && len(hostinfo.vpnAddrs) >= 1 && hostinfo.ConnectionState != nil && hostinfo.ConnectionState.peerCert == remoteCert && remoteCert != nil && same(vpnNetworks, remoteCert.Certificate.Networks()) && f == hm.f
+//@   loop 1 invariant[frame]   len(vpnAddrs) == len(vpnNetworks) && implies(len(vpnAddrs) > 0, fresh(&vpnAddrs[0])) && completed == 0 && replayed == 0 && hostinfo == hi && hostinfo.vpnAddrs[0] == intended && len(hostinfo.vpnAddrs) >= 1 && hostinfo.ConnectionState != nil && hostinfo.ConnectionState.peerCert == remoteCert && remoteCert != nil && same(vpnNetworks, remoteCert.Certificate.Networks()) && f == hm.f
 //@   loop 1 assigns elems(vpnAddrs)
-//@   loop 2 invariant completed == 1
+//@   loop 2 invariant completed == 1 && replayed == rangeindex && 0 <= rangeindex && rangeindex <= 1<<56
 //@   loop 2 assigns nothing
 
 // =====================================================================
@@ -2533,3 +2537,83 @@ func specIsPortRange(s string, lo, hi int32) bool {
 //@   callrequires[fields] AddRule same(arg5, r.Groups) && arg6 == r.Host && arg7 == r.Cidr && arg8 == r.LocalCidr && arg9 == r.CAName && arg10 == r.CASha
 //@   callrequires[selector] AddRule arg6 != "" || len(arg5) > 0 || arg7 != "" || arg8 != "" || arg9 != "" || arg10 != ""
 //@   loop 1 invariant added == rangeindex
+
+// =====================================================================
+// C32 — pending handshakes retry, give up, and release queued packets
+// =====================================================================
+//
+// handleOutbound, for the pending handshake the manager holds for the address:
+// once the attempt counter has reached the configured number of retries the
+// pending state is removed (one call of DeleteHostInfo) and nothing is sent or
+// rescheduled; otherwise the counter grows by exactly one and every
+// rescheduling uses the delay tryInterval * counter (linear back-off). A
+// lighthouse-triggered attempt never reschedules after sending.
+// cachePacket never lets the store exceed maxCachedPackets (100): below the cap
+// it appends one entry holding the message type, subtype and a private copy of
+// the packet, keeping the earlier entries in place; at the cap it drops the
+// packet and leaves the store as it is.
+// continueHandshake (C09 above) replays the store after completing the tunnel:
+// one callback per entry, in order, each with the entry's own type, subtype
+// and packet, for the completed tunnel.
+
+//@ func specPending
+//@   opaque
+func specPending(hm *HandshakeManager, vpnIp netip.Addr) *HandshakeHostInfo { return nil }
+
+//@ func (*HandshakeManager).queryVpnIp
+//@   trusted read-locked lookup of the pending handshake for the address
+//@   ensures result == specPending(hm, vpnIp)
+//@   assigns nothing
+//@ func (*RemoteList).CopyAddrs
+//@   trusted copies the candidate addresses of the peer (C37)
+//@   assigns nothing
+//@ func (*HostMap).GetPreferredRanges
+//@   trusted atomic load of the configured preferred ranges
+//@   assigns nothing
+//@ func (*LightHouse).QueryCache
+//@   trusted finds or creates the remote list of the addresses
+//@   ensures result != nil
+//@   assigns nothing
+//@ func (*RemoteList).ForEach
+//@   trusted calls the function for each candidate address (here: sends the stored handshake message)
+//@   effect transmitted
+//@   assigns nothing
+//@ func (*relayManager).StartRelays
+//@   trusted asks known relays to carry the handshake
+//@   effect transmitted
+//@   assigns nothing
+//@ func (*HandshakeManager).buildStage0Packet
+//@   trusted builds the first handshake message (sets ready and the machine on success)
+//@   ensures implies(result, hh.machine != nil)
+//@   assigns hh.ready, hh.machine
+//@ func slices.Equal[[]net/netip.AddrPort,net/netip.AddrPort]
+//@   trusted element-wise comparison, reads only
+//@   assigns nothing
+
+//@ func (*HandshakeManager).handleOutbound
+//@   props C32
+//@   ghost acted int = 0
+//@   ghost transmitted int = 0
+//@   ghost rescheduled int = 0
+//@   requires hm != nil && hm.l != nil && hm.mainHostMap != nil && hm.lightHouse != nil && hm.OutboundHandshakeTimer != nil && hm.f != nil && hm.f.relayManager != nil && hm.metricTimedOut != nil && hm.messageMetrics != nil
+//@   requires implies(specPending(hm, vpnIp) != nil, specPending(hm, vpnIp).hostinfo != nil && implies(specPending(hm, vpnIp).counter >= hm.config.retries, specPending(hm, vpnIp).hostinfo.remotes != nil) && implies(specPending(hm, vpnIp).ready, specPending(hm, vpnIp).machine != nil) && specPending(hm, vpnIp).counter >= 0 && specPending(hm, vpnIp).counter < 1<<40)
+//@   old pending = specPending(hm, vpnIp)
+//@   old counter0 = specPending(hm, vpnIp).counter
+//@   callrequires (*LockingTimerWheel).Add arg1 == vpnIp && arg2 == hm.config.tryInterval*time.Duration(counter0+1)
+//@   callrequires (*HandshakeManager).DeleteHostInfo arg1 == pending.hostinfo
+//@   ensures[none]      implies(pending == nil, acted == 0 && transmitted == 0 && rescheduled == 0)
+//@   ensures[giveup]    implies(pending != nil && counter0 >= hm.config.retries, acted == 1 && transmitted == 0 && rescheduled == 0 && pending.counter == counter0)
+//@   ensures[retry]     implies(pending != nil && counter0 < hm.config.retries, acted == 0 && pending.counter == counter0+1 && rescheduled <= 1)
+//@   ensures[triggered] implies(pending != nil && lighthouseTriggered && transmitted >= 1, rescheduled == 0)
+
+//@ func (*HandshakeHostInfo).cachePacket
+//@   props C32
+//@   ghost j int
+//@   requires hh != nil && l != nil && hh.hostinfo != nil && m != nil && m.dropped != nil && len(hh.packetStore) <= maxCachedPackets
+//@   old n0 = len(hh.packetStore)
+//@   old ej = hh.packetStore[j]
+//@   ensures[cap]    len(hh.packetStore) <= maxCachedPackets
+//@   ensures[stored] implies(n0 < maxCachedPackets, len(hh.packetStore) == n0+1 && hh.packetStore[n0] != nil && fresh(hh.packetStore[n0]) && hh.packetStore[n0].messageType == t && hh.packetStore[n0].messageSubType == st && len(hh.packetStore[n0].packet) == len(packet) && !sameArray(hh.packetStore[n0].packet, packet))
+//@   ensures[copied] implies(n0 < maxCachedPackets && 0 <= j && j < len(packet), hh.packetStore[n0].packet[j] == old(packet[j]))
+//@   ensures[kept]   implies(0 <= j && j < n0, hh.packetStore[j] == ej)
+//@   ensures[full]   implies(n0 >= maxCachedPackets, len(hh.packetStore) == n0)
